@@ -21,4 +21,12 @@ PROPS = {
             "thread_local! gives each thread its own cache starting at (HEADER_TEMPLATE, i64::MIN)",
         ],
     },
+    'C19': {
+        'streams': ['headers'],
+        'shrink': {'headers': 'list;'},
+        'assumptions': [
+            "field names are &str in Rust, byte strings in the model; the harness generates UTF-8 names only",
+            "iter_mut / IntoIterator for &mut Headers (mutation behind the cache) are outside the operation set of the property",
+        ],
+    },
 }
